@@ -168,6 +168,52 @@ reg(Zoo(
 
 
 # ------------------------------------------------------------------------------------------------
+# wide: 4 regions at the root, 17 states in the root machine (ids up to 16), a 3-region submachine that is the INITIAL
+# state of the third region; few guards so that the product of the regions stays explorable
+reg(Zoo(
+    name='wide',
+    events=['e1', 'e2', 'e3'],
+    root=Machine(
+        'Wide',
+        states=[
+            S('A0'), S('A1'), S('A2'), S('A3'),
+            S('B0'), S('B1'), S('B2'),
+            S('WS', kind='sub', sub=Machine(
+                'WS',
+                states=[S('P0'), S('P1'), S('Q0'), S('Q1'), S('T0'), S('T1')],
+                initial=['P0', 'Q0', 'T0'],
+                rows=[
+                    R('T0', 'e3', 'T1', a=False),
+                    R('T1', 'e3', 'T0', a=False, g=False),
+                    R('P0', 'e1', 'P1', a=False, g=False),
+                    R('P1', 'e1', 'P0', g=False),
+                    R('Q0', 'e2', 'Q1', a=False, g=False),
+                    R('Q1', 'e2', 'Q0', a=False, g=False),
+                ],
+            )),
+            S('C1'),
+            S('D0'), S('D1'), S('D2'), S('D3'), S('D4'), S('D5'), S('D6'), S('D7'),
+        ],
+        initial=['A0', 'B0', 'WS', 'D0'],
+        rows=[
+            R('A0', 'e1', 'A1', a=False, g=False),
+            R('A1', 'e1', 'A2', a=False),
+            R('A2', 'e1', 'A3', a=False, g=False),
+            R('A3', 'e1', 'A0', g=False),
+            R('B0', 'e2', 'B1', a=False, g=False),
+            R('B1', 'e2', 'B0', a=False, g=False),
+            R('B1', 'e1', 'B2', a=False, g=False),
+            R('B2', 'e2', 'B0', a=False, g=False),
+            R('WS', 'e3', 'C1', a=False),
+            R('C1', 'e3', 'WS', a=False, g=False),
+            R('D0', 'e3', 'D1', a=False, g=False), R('D1', 'e3', 'D2', a=False, g=False), R('D2', 'e3', 'D3', a=False, g=False),
+            R('D3', 'e3', 'D4', a=False, g=False), R('D4', 'e3', 'D5', a=False, g=False), R('D5', 'e3', 'D6', a=False, g=False),
+            R('D6', 'e3', 'D7', g=False), R('D7', 'e3', 'D0', a=False, g=False),
+        ],
+    ),
+))
+
+# ------------------------------------------------------------------------------------------------
 # hist{N,A,S}: a 3-region submachine under each history policy, entered plainly, by a history event,
 # by explicit entry, by fork naming 2 of 3 regions
 def hist_zoo(tag, history):
